@@ -305,6 +305,9 @@ func (lf *logFile) encodeEntry(buf *bytes.Buffer, e *Entry, offset uint32) (int,
 		eBuf := make([]byte, 0, len(e.Key)+len(e.Value))
 		eBuf = append(eBuf, e.Key...)
 		eBuf = append(eBuf, e.Value...)
+		if vhook.On {
+			vhook.EventKV("enc.iv", lf.generateIV(offset), nil, lf.dataKey.KeyId, 2)
+		}
 		if err := y.XORBlockStream(
 			writer, eBuf, lf.dataKey.Data, lf.generateIV(offset)); err != nil {
 			return 0, y.Wrapf(err, "Error while encoding entry for vlog.")
